@@ -66,12 +66,33 @@ def bnodify(ts, r, general, tau=pipe.RDF_TYPE):
     return [(f(s), p, f(o)) for s, p, o in ts]
 
 
+_GUARD = {}
+
+
+def bnode_guard_present():
+    """Gen.Consts.c_min_iri_skips_bnode_prefix, asked from the model binary (entry c17_info): True iff the source tree
+    the constants were generated from carries `if longest_common_prefix.startswith("_:"): return None` first in
+    AnnotateMinIriStrategy._determine_suitable_iri_pattern (tools/gen_consts.py accepts exactly the two texts of
+    the function).  With the test the root cause of C09-F3 is not in the source: a difference of stems is never
+    excused (Props/C09.v: C09_stem_rename_invariant says there is none)."""
+    pid = os.getpid()
+    if pid not in _GUARD:
+        _GUARD.clear()
+        mb = core.ModelBin()
+        try:
+            _GUARD[pid] = mb.call("c17_info", [["x"]])[0][0] == "1"
+        finally:
+            mb.close()
+    return _GUARD[pid]
+
+
 def bnode_stem_classes(ts, cfg):
     """C09-F3, computed from the data: with detect_minimal_iri, the classes all of whose instances are blank nodes
     whose labels share a prefix that reaches a ':' and is at least three characters long ('_:' included) -- the
     longest-common-prefix fold of the profiler runs over blank-node labels as if they were IRIs and the cut at
-    the last of ':', '/', '#' leaves a 'stem' (labels hold no '/' or '#')"""
-    if not cfg.get("detect_minimal_iri"):
+    the last of ':', '/', '#' leaves a 'stem' (labels hold no '/' or '#').  Empty when the source refuses a
+    common prefix that starts with '_:' (the repair): nothing is attributed to the finding then."""
+    if not cfg.get("detect_minimal_iri") or bnode_guard_present():
         return {}
     by = {}
     for i, cs in pipespec.spec_instances(ts, cfg).items():
@@ -146,7 +167,8 @@ class Spec(pipeprops.PropSpec):
 
     def __init__(self):
         self.stats = {"families": {}, "features": {}, "cases_with_blank_nodes": 0, "blank_node_heavy": 0,
-                      "file_runs": 0, "renamed_subjects": 0, "renamed_objects": 0}
+                      "file_runs": 0, "renamed_subjects": 0, "renamed_objects": 0,
+                      "detect_minimal_iri_runs_with_a_class_of_blank_nodes_only": 0}
 
     def _count(self, fam, names, ts2, heavy, with_file):
         st = self.stats
@@ -160,6 +182,14 @@ class Spec(pipeprops.PropSpec):
         st["renamed_objects"] += sum(1 for s, p, o in ts2 if o[0] == "B")
 
     def domain_note(self):
+        try:
+            guard = bnode_guard_present()
+        except Exception:  # noqa: BLE001 - the note is informative only
+            guard = None
+        return ("bnode_prefix_guard_in_source (no stem from a common prefix that starts with '_:'; C09-F3 is excused "
+                "only without it): %r; " % guard) + self._domain_note()
+
+    def _domain_note(self):
         return ("blank-node labels: Spec/NtSyntax.valid_label (C06's label language), statements closed by ' .', no "
                 "comments (C06_dom_fx2 holds: C06-F7r needs a comment glued to the dot); renamings generated: %r"
                 % (self.stats,))
@@ -184,6 +214,13 @@ class Spec(pipeprops.PropSpec):
             if with_file:
                 runs.append((ts2, cfg, "shexc_ntfile"))
             self._count(fam, names, ts2, heavy, with_file)
+            if cfg["detect_minimal_iri"]:
+                by = {}
+                for inst, cs in pipespec.spec_instances(ts2, cfg).items():
+                    for c in cs:
+                        by.setdefault(c, []).append(inst)
+                self.stats["detect_minimal_iri_runs_with_a_class_of_blank_nodes_only"] += any(
+                    all(x.startswith("_:") for x in ids) for ids in by.values())
             cases.append({"runs": runs, "meta": {"kind": "random", "family": fam, "blank_node_heavy": heavy}})
         # exhaustive permutations of tiny documents
         lim = 6 if tier == "thorough" else 5
